@@ -147,8 +147,13 @@ std::vector<TecmpPayloadPtr> TECMP::Decoder::GetInterfacePayload(const uint8_t* 
 }
 TecmpPayloadPtr TECMP::Decoder::GetCanPayload(const uint8_t* payloadData, const std::size_t size)
 {
+    // arbitration id (4), data length (1), data
+    constexpr std::size_t headerSize = 5;
+    if (size < headerSize)
+        return {};
+
     CanPayload payload(payloadData, size);
-    if (payload.isValid())
+    if (payload.isValid() && payload.getDlc() <= size - headerSize)
         return std::make_shared<Payload>(payload);
 
     return {};
@@ -156,8 +161,13 @@ TecmpPayloadPtr TECMP::Decoder::GetCanPayload(const uint8_t* payloadData, const 
 
 TecmpPayloadPtr TECMP::Decoder::GetLinPayload(const uint8_t* payloadData, const std::size_t size)
 {
+    // protected id (1), data length (1), data
+    constexpr std::size_t headerSize = 2;
+    if (size < headerSize)
+        return {};
+
     LinPayload payload(payloadData, size);
-    if (payload.isValid())
+    if (payload.isValid() && payload.getDataLength() <= size - headerSize)
         return std::make_shared<Payload>(payload);
 
     return {};
